@@ -549,8 +549,10 @@ def compare(sc, o):
         mm.append('model predicts a panic')
     if im['exit'] != want_exit:
         mm.append('exit %s, model %s' % (im['exit'], want_exit))
-    # destination tree
-    mm += diff_dest(m['fs'], im['after']['dest'])
+    # destination tree (when the model logs that an effect went THROUGH a destination link - the F6b class - the
+    # effect itself lies beyond the model's tree and the tree is not compared; the traces still are)
+    if not any(e.startswith('T:') for e in m['events']):
+        mm += diff_dest(m['fs'], im['after']['dest'])
     # traces: exact sequences (the model is given the real per-side listing orders)
     mt = canon_model_trace(m['dest'])
     if mt != im['dest_trace']:
